@@ -717,6 +717,50 @@ fn gen_val(r: &mut Rng, ty: &T, nullable: bool) -> V {
     }
 }
 
+/// grow the first capacity-bounded array / string found (depth first, random skip) past its
+/// capacity, or change the length of an exact-length octet string
+fn overflow_one(r: &mut Rng, ty: &T, v: &mut V) -> bool {
+    match (ty, v) {
+        (T::Arr(Some(cap), el), V::Arr(xs)) => {
+            if r.chance(1, 2) && *cap < 40 {
+                while xs.len() <= *cap {
+                    xs.push(gen_val(r, el, false));
+                }
+                return true;
+            }
+            for x in xs.iter_mut() {
+                if overflow_one(r, el, x) {
+                    return true;
+                }
+            }
+            false
+        }
+        (T::Oct(lo, Some(cap)), V::Bytes(b)) => {
+            if *lo > 0 && r.chance(1, 2) {
+                b.truncate(lo - 1);
+            } else {
+                b.resize(cap + 1, 0x41);
+            }
+            true
+        }
+        (T::Utf8(cap), V::Bytes(b)) => {
+            b.resize(cap + 1, 0x41);
+            true
+        }
+        (T::St(fs), V::Obj(xs)) | (T::Ls(fs), V::Obj(xs)) => {
+            let start = r.below(fs.len().max(1) as u64) as usize;
+            for k in 0..fs.len() {
+                let i = (start + k) % fs.len();
+                if overflow_one(r, &fs[i].ty, &mut xs[i]) {
+                    return true;
+                }
+            }
+            false
+        }
+        _ => false,
+    }
+}
+
 pub fn gen(r: &mut Rng) -> (String, Vec<String>) {
     let name = *r.pick(NAMES);
     let ty = schema(name).expect("schema");
@@ -730,10 +774,20 @@ pub fn gen(r: &mut Rng) -> (String, Vec<String>) {
         // a truncated / mutated encoding must be rejected or decoded, never panic
         let mut b = unhex(h);
         if !b.is_empty() {
-            match r.below(4) {
+            match r.below(5) {
                 0 => {
                     let n = r.below(b.len() as u64) as usize;
                     b.truncate(n);
+                }
+                4 => {
+                    // one array / string pushed beyond its capacity, or an exact-length key shortened
+                    // (written by the layout writer: the derived decoder must refuse it)
+                    let mut w = v.clone();
+                    if overflow_one(r, &ty, &mut w) {
+                        if let Some(h2) = layout_enc(name, &w, None).strip_prefix("ok:") {
+                            b = unhex(h2);
+                        }
+                    }
                 }
                 1 => {
                     let i = r.below(b.len() as u64) as usize;
